@@ -32,7 +32,6 @@ var contentExceptions = map[string]struct {
 }{
 	"(*packets.FrameParser).getParser": {1, "empty buffer: infeasible, ReadAndParse returns on n == 0 before parsing (premise verified by dominance on every run)"},
 	"(*packets.FrameParser).GetIPPair": {1, "unexpected IP layer: infeasible after Parse succeeded, checkLayers admits exactly the IP layer types GetIPPair handles (premise verified on every run)"},
-	"packets.ReadAndParse":             {1, "zero-length read: a Source contract breach, not packet content; that no module Source returns a zero count for content reasons is decided by R09.1c"},
 }
 
 func inboundRoots(c *Ctx) (roots []*ssa.Function, names []string) {
@@ -253,34 +252,39 @@ func checkPremises(c *Ctx) {
 		R.Fail("R09.1", "packets.ReadAndParse#anchor", 0, "", "anchor packets.ReadAndParse no longer resolves")
 	} else {
 		found := false
-		for _, b := range f.Blocks {
-			for _, in := range b.Instrs {
-				call, ok := in.(*ssa.Call)
-				if !ok || call.Common().StaticCallee() == nil || core.FuncName(call.Common().StaticCallee()) != "(*packets.FrameParser).Parse" {
-					continue
+		okAll := true
+		var ppos token.Pos
+		// inlined paths: the read and its classification may sit in a helper of the package
+		isParse := func(h *ssa.Function) bool { return core.FuncName(h) == "(*packets.FrameParser).Parse" }
+		for _, ip := range InlinedPaths(c.P, f, inlineOpts{pkg: core.FuncPkg(f), stop: func(h *ssa.Function) bool { return isParse(h) || hasLoop(h) }}) {
+			parses := false
+			for _, ev := range ip.Events {
+				if call, ok := ev.Instr.(*ssa.Call); ok && ev.Kind == "call" && call.Common().StaticCallee() != nil && isParse(call.Common().StaticCallee()) {
+					parses = true
+					ppos = call.Pos()
 				}
-				found = true
-				okAll := true
-				paths, _ := core.EnumPaths(f, b, 500)
-				for _, pa := range paths {
-					env := core.NewEnv(c.P, pa)
-					nz, ne := false, false
-					for _, a := range env.Atoms() {
-						nn := a.Norm()
-						s := nn.Cond.String()
-						if !nn.Sign && strings.HasSuffix(s, "#0 == 0)") && strings.Contains(s, "Source.Read") {
-							nz = true
-						}
-						if nn.Sign && strings.HasSuffix(s, "#1 == nil)") && strings.Contains(s, "Source.Read") {
-							ne = true
-						}
-					}
-					if !nz || !ne {
-						okAll = false
-					}
-				}
-				R.Check(okAll, "R09.1", "packets.ReadAndParse#premise[parse-after-nonempty-read]", call.Pos(), core.FuncName(f), "Parse is reached only with a nil read error and n != 0", "Parse can be reached with n == 0 or a read error: the 'buffer was empty' exception no longer holds")
 			}
+			if !parses {
+				continue
+			}
+			found = true
+			nz, ne := false, false
+			for _, a := range ip.Atoms {
+				nn := a.Norm()
+				s := nn.Cond.String()
+				if !nn.Sign && strings.HasSuffix(s, "#0 == 0)") && strings.Contains(s, "Source.Read") {
+					nz = true
+				}
+				if nn.Sign && strings.HasSuffix(s, "#1 == nil)") && strings.Contains(s, "Source.Read") {
+					ne = true
+				}
+			}
+			if !nz || !ne {
+				okAll = false
+			}
+		}
+		if found {
+			R.Check(okAll, "R09.1", "packets.ReadAndParse#premise[parse-after-nonempty-read]", ppos, core.FuncName(f), "Parse is reached only with a nil read error and n != 0", "Parse can be reached with n == 0 or a read error: the 'buffer was empty' exception no longer holds")
 		}
 		R.Check(found, "R09.1", "packets.ReadAndParse#calls-parse", f.Pos(), core.FuncName(f), "ReadAndParse parses what it read", "ReadAndParse no longer calls FrameParser.Parse: anchor lost")
 	}
@@ -761,8 +765,6 @@ func checkStateDeref(c *Ctx) {
 // each). Local identifiers are replaced by $1, $2, ... in order of appearance so that renaming a variable is not a change; field
 // names, literals and operators stay, so that indexing something else or by something else is.
 var bceTable = map[string]string{
-	"packets.ReadAndParse|$1[:$2]":                         "n is the count returned by Read on that very buffer (Source contract)",
-	"(*packets.afPacketSource).Read|$1[:$2]":                  "n is the count os.File.Read returned for buf",
 	"(*packets.FrameParser).GetIPPair|$1.Layers[0]":            "only evaluated to format the message of the infeasible default branch",
 	"(*packets.FrameParser).GetICMPInfo|$1.Layers[1]":          "only evaluated to format the message of the default branch; len(Layers) >= 2 after Parse succeeded",
 	"(*packets.FrameParser).GetIPLayer|$1.Layers[0]":           "guarded by len(p.Layers) < expectedLayerCount just above (constant 2)",
@@ -1368,6 +1370,20 @@ func proveUpperBound(c *Ctx, f *ssa.Function, lbr token.Pos) (bool, string) {
 					}
 				}
 			case *ssa.Slice:
+				// (R) buf[:n] with n the count a Read on that very buffer returned: 0 <= n <= len(buf) is the Read contract
+				// (io.Reader; the module's Source implementations are decided by R09.1c)
+				if ex, ok := x.High.(*ssa.Extract); ok && x.Low == nil && ex.Index == 0 {
+					if call, ok := ex.Tuple.(*ssa.Call); ok {
+						cc := call.Common()
+						isRead := cc.IsInvoke() && cc.Method.Name() == "Read" && len(cc.Args) == 1 && sameSlice(cc.Args[0], x.X)
+						if cal := cc.StaticCallee(); cal != nil && cal.Name() == "Read" && len(cc.Args) == 2 && sameSlice(cc.Args[1], x.X) {
+							isRead = true
+						}
+						if isRead {
+							return true, "the bound is the count returned by Read on that very buffer (Read contract: 0 <= n <= len(buf))"
+						}
+					}
+				}
 				// (0) constant bounds below an established minimum length
 				{
 					top := x.High
